@@ -162,6 +162,18 @@ def rule_dispatch(ctx):
     # fold: to_lower_case / is_upper_case as functions of "c has an entry in the fold table" (whatever the spelling:
     # binary_search_by_key / binary_search_by, map_or / match / ok() / is_ok() / helper functions)
     from cfg import decision_paths
+    from props.c01 import char_routines_by_evaluation
+    ev = char_routines_by_evaluation(ctx)
+    if ev is not None and ctx.facts.body(M, "chars::to_lower_case") is not None:
+        for name, k_, what in (("chars::to_lower_case", "lower", "table[idx].1 if c has an entry else c"), ("chars::is_upper_case", "upper", "c has an entry")):
+            f = get_fn(ctx.facts, M, name)
+            if ev[k_]:
+                c, got, want_ = ev[k_][0]
+                ctx.violation("%s|value|1" % name, site(f, 0), "%s(U+%04X) = %s, the fold table says %s: this routine is no longer exactly the table lookup that "
+                              "char_class_and_normalize / the smart-case logic assume" % (name, c, got if k_ == "upper" else "U+%04X" % got, want_ if k_ == "upper" else "U+%04X" % want_))
+            else:
+                ctx.ok(site(f, 0), "%s(c) = %s on %d representative characters (evaluated against the constant table)" % (name, what, ev["reps"]))
+        return
     for name, want in (("chars::to_lower_case", {True: ("VALUE",), False: ("C",)}), ("chars::is_upper_case", {True: 1, False: 0})):
         f = get_fn(ctx.facts, M, name)
         bs = [(bi, t) for bi, t in f.calls(lambda t: any(callee(t).endswith(x) for x in ("binary_search_by_key", "binary_search_by", "::binary_search")))]
